@@ -720,22 +720,29 @@ def run_part2(ctx, gsm_shared):
             lines.append("%s %d %d %d" % (op, 99, a[1], a[2]))
         else:
             lines.append(op + " " + " ".join(map(str, a)))
-    p = subprocess.run([binp], input="\n".join(lines) + "\n", stdout=subprocess.PIPE, stderr=subprocess.PIPE, text=True, timeout=900)
-    outl = p.stdout.split("\n")
-    impl, side, j = {}, {}, 0
-    crashed = p.returncode != 0
-    for k, (op, a, idx) in enumerate(cases):
-        if j >= len(outl) or (j == len(outl) - 1 and outl[j] == ""):
-            crashed = True
+    impl, side = {}, {}
+    start, stops = 0, 0
+    while start < len(cases) and stops < 6:
+        p = subprocess.run([binp], input="\n".join(lines[start:]) + "\n", stdout=subprocess.PIPE, stderr=subprocess.PIPE, text=True, timeout=900)
+        outl = p.stdout.split("\n")
+        j, k = 0, start
+        while k < len(cases):
+            need = 2 if cases[k][0] == "w_c19_run" else 1
+            if j + need > len(outl) - 1:        # the last element is the empty string behind the final newline (or a cut line)
+                break
+            impl[k] = [int(x) for x in outl[j].split()]
+            if need == 2:
+                side[k] = outl[j + 1].split()[1:]
+            j += need
+            k += 1
+        if k >= len(cases) and p.returncode == 0:
             break
-        impl[k] = [int(x) for x in outl[j].split()]
-        j += 1
-        if op == "w_c19_run":
-            side[k] = outl[j].split()[1:] if j < len(outl) else []
-            j += 1
-    if crashed:
-        k = len(impl)
-        ofail(ctx, "harness around the real sync.c stopped (sanitizer?)", dict(next_case=cases[k] if k < len(cases) else None, stderr=p.stderr[-2500:]), key="c19-harness-crash")
+        # the harness stopped while working on case k (sanitizer report or crash): that case is the failing input; go on behind it
+        stops += 1
+        if k < len(cases):
+            ofail(ctx, "harness around the real sync.c stopped on this input (sanitizer report / crash)",
+                  dict(op=cases[k][0], args=cases[k][1], stderr=p.stderr[-2500:]), key="c19-harness-crash")
+        start = k + 1
     idxs = [k for k in range(len(cases)) if k in impl]
     ctx.correspond("gsm-time-run", "GsmTime", idxs, lambda k: cases[k][0] + " " + " ".join(map(str, cases[k][1])), lambda k: impl[k],
                    show=lambda k: dict(op=cases[k][0], args=cases[k][1]))
